@@ -146,3 +146,25 @@ mod tests {
         assert_eq!(hash, *cid.hash());
     }
 }
+
+#[cfg(eigerco_lumina_verif)]
+pub(crate) mod verif_hooks {
+    use super::*;
+
+    /// The crate-private multihasher behind a nameable type.
+    pub(crate) struct VMultihasher<S: Store + 'static>(ShwapMultihasher<S>);
+
+    impl<S: Store + 'static> VMultihasher<S> {
+        pub(crate) fn new(header_store: Arc<S>) -> Self {
+            VMultihasher(ShwapMultihasher::new(header_store))
+        }
+
+        pub(crate) async fn hash(
+            &self,
+            multihash_code: u64,
+            input: &[u8],
+        ) -> Result<Multihash<MAX_MH_SIZE>, MultihasherError> {
+            Multihasher::<MAX_MH_SIZE>::hash(&self.0, multihash_code, input).await
+        }
+    }
+}
